@@ -14,6 +14,7 @@ from .purity import Purity
 from . import report
 
 LEVELS = {
+    'C05': 'proof',
     'C06': 'proof',
 }
 CHECKER_CMD = 'python3-vt -m kverif check {id} --tier {tier}'
